@@ -1,7 +1,10 @@
 package server
 
 import (
+	"crypto"
+
 	"github.com/cbeuw/Cloak/internal/zzverif/vapi"
+	"golang.org/x/crypto/curve25519"
 )
 
 // VerifC07Window: the timestamp window, for every 64-bit timestamp and every server instant at ns resolution.
@@ -57,4 +60,77 @@ func VerifC07Fields() {
 	vapi.Assert(info.SessionId == sid, "C06/C07: session id recovered")
 	vapi.Assert(info.Unordered == un, "C06/C07: unordered flag recovered")
 	vapi.Reach("fields-end")
+}
+
+// vWSHidden: the WebSocket transport from the decoded hidden header on (the HTTP parser and base64 decoding in front
+// of it are outside the encoding).
+type vWSHidden struct{}
+
+func (vWSHidden) processFirstPacket(hidden []byte, privateKey crypto.PrivateKey) (authFragments, Responder, error) {
+	f, err := WebSocket{}.unmarshalHidden(hidden, privateKey)
+	return f, nil, err
+}
+
+// c07Present presents (ephemeral public key, sealed payload) as a first packet over the TLS or the WebSocket transport.
+func c07Present(sta *State, ws bool, eph []byte, ct []byte) error {
+	if ws {
+		_, _, err := AuthFirstPacket(append(append([]byte{}, eph...), ct...), vWSHidden{}, sta)
+		return err
+	}
+	_, _, err := AuthFirstPacket(vHello(eph, ct[:32], ct[32:]), TLS{}, sta)
+	return err
+}
+
+// VerifC07Forge: a payload sealed under any key other than the X25519 secret of (server static key, presented
+// ephemeral key) is never accepted - whatever ephemeral value is presented, including points for which the key
+// agreement degenerates - although everything inside it (UID, method, timestamp) is acceptable.
+func VerifC07Forge() {
+	vapi.Adversary(true)
+	ws := vapi.Pick("transport", 2) == 1
+	staticPv, _ := vServerKeys()
+	sta := vState(staticPv)
+	vSetClock("now")
+	eph := vapi.Bytes("eph", 32)
+	K := vapi.Bytes("K", 32)
+	pt := vPlaintext(vapi.Bytes("uid", 16), []byte("shadowsocks"), 1, vNowSec, vapi.U32("sid"), false)
+	ct := vSealGCM(eph[:12], K, pt)
+	s, derr := curve25519.X25519(staticPv[:], eph)
+	vapi.Assume(vapi.Or(derr != nil, !vapi.BytesEq(s, K))) // the forger does not know the shared secret
+	err := c07Present(sta, ws, eph, ct)
+	vapi.Assert(err != nil, "C07: a payload that was not encrypted to the server's static public key is never accepted")
+	vapi.Reach("forge-end")
+}
+
+// VerifC07Tamper: an honest payload with any one byte of the ephemeral key or of the sealed block altered is not
+// accepted (TLS and WebSocket transports).
+func VerifC07Tamper() {
+	vapi.Adversary(true)
+	ws := vapi.Pick("transport", 2) == 1
+	staticPv, serverPub := vServerKeys()
+	sta := vState(staticPv)
+	vSetClock("now")
+	c := vNewClient(serverPub, vPlaintext(vapi.Bytes("uid", 16), []byte("shadowsocks"), 1, vNowSec, vapi.U32("sid"), false))
+	eph := append([]byte{}, c.ephPub[:]...)
+	ct := append([]byte{}, c.ct[:]...)
+	delta := vapi.U8("delta")
+	vapi.Assume(delta != 0)
+	epos := []int{0, 11, 12, 30, 31}
+	cpos := []int{0, 15, 16, 31, 32, 47, 48, 63}
+	k := vapi.Pick("pos", len(epos)+len(cpos)+1)
+	switch {
+	case k < len(epos):
+		if epos[k] == 31 {
+			vapi.Assume(delta != 0x80) // RFC 7748: the top bit of the u-coordinate is ignored (same key, same payload: C08's subject)
+		}
+		eph[epos[k]] ^= delta
+	case k < len(epos)+len(cpos):
+		ct[cpos[k-len(epos)]] ^= delta
+	default:
+		// unmodified: accepted (reachability of the accepting path)
+		vapi.Assert(c07Present(sta, ws, eph, ct) == nil, "C07: the unmodified honest payload is accepted")
+		vapi.Reach("tamper-accept")
+		return
+	}
+	vapi.Assert(c07Present(sta, ws, eph, ct) != nil, "C07: a modified authentication payload is never accepted")
+	vapi.Reach("tamper-end")
 }
